@@ -162,6 +162,9 @@ func c02Comps() []c02Comp {
 		{"three-actions", "%P" + S + S + S, 3, false, f, f, ""},
 		{"range", "%P{{range $.L}}{{.}}{{end}}", 2, true, f, f, ""},
 		{"range3", "%P{{range $.L}}{{.}}{{end}}", 3, true, f, f, ""},
+		{"range-static-colon", "%P{{range $.L}}{{.}}:{{end}}", 2, true, f, f, ""},
+		{"range-static-text", "%P{{range $.L}}{{.}}script{{end}}", 2, true, f, f, ""},
+		{"action-colon-action", "%P" + S + ":" + S, 2, false, f, f, ""},
 		{"if-else-static-then-action", "%P{{if $.C}}{{else}}java{{end}}" + S, 1, false, tf, f, ""},
 		{"if-static-then-action", "%P{{if $.C}}java{{end}}" + S, 1, false, tf, f, ""},
 		{"if-else-slash-then-action", "%P{{if $.C}}/{{else}}{{end}}" + S, 1, false, tf, f, ""},
@@ -387,7 +390,7 @@ func checkC02(r *core.Run) {
 			cls = "link"
 		}
 		discr := c02Root[j.comp.name] + ":" + cls
-		if c02Root[j.comp.name] != "multiple-dynamic-parts" {
+		if r := c02Root[j.comp.name]; r != "multiple-dynamic-parts" && r != "parts-with-static-separator" {
 			discr += ":prefix=" + j.pre // the static prefix matters for what a single dynamic part may do
 		}
 		run(prog, j.comp.nparts, j.comp.rng, j.comp.c, j.comp.w, discr)
@@ -437,6 +440,9 @@ var c02Root = map[string]string{
 	"three-actions":                 "multiple-dynamic-parts",
 	"range":                         "multiple-dynamic-parts",
 	"range3":                        "multiple-dynamic-parts",
+	"range-static-colon":            "parts-with-static-separator",
+	"range-static-text":             "parts-with-static-separator",
+	"action-colon-action":           "parts-with-static-separator",
 	"if-else-static-then-action":    "ambiguous-static-prefix",
 	"if-static-then-action":         "ambiguous-static-prefix",
 	"if-else-slash-then-action":     "ambiguous-static-prefix",
